@@ -357,7 +357,10 @@ GEV = [
     ("add_units", "G1", "u4"), ("remove_units", "G1", "u4"), ("remove_units", "G1", "g1a"), ("add_units", "G3", "u2"),
     ("add_groups", "G3", "G1"), ("remove_groups", "G3", "G1"), ("remove_groups", "G2", "G1"),
     ("add_groups", "G1", "G2"), ("add_groups", "G1", "G1"), ("add_groups2", "G3", "G1", "G0"),
-    ("add_groups", "G3", "G2"), ("add_groups", "G1", "G3"),  # together with 'G2 using G1' these close a cycle of length 3
+    ("add_groups", "G3", "G2"), ("add_groups", "G1", "G3"),
+    # a system told to use a group the registry does not have (yet): it contributes nothing, the others still count;
+    # and that group appearing later
+    ("sys_add_groups", "S1", "GX"), ("define", "@group GX\n    gx1 = 29 * ua\n@end"),  # together with 'G2 using G1' these close a cycle of length 3
     ("members",), ("members_of", "G2"), ("members_of", "S1"),
     ("define", "@group G1\n    g1c = 19 * ua\n@end"),
 ]
@@ -389,6 +392,8 @@ class GSys:
         if g == "root":
             out = set(self.all_units)
             return out
+        if g not in self.units:
+            return set()  # a name no group answers to (yet)
         out = set(self.units[g])
         for h in self.using[g]:
             out |= self.members(h, seen)
@@ -402,6 +407,8 @@ class GSys:
         return False
 
 
+# units of dimension [A] that a compatible-unit LISTING can show: gx1 is added with define() after construction and such
+# units are missing from listings by a recorded mechanism (C13 finding), so it is left to the membership oracle only
 DIMA = {"ua", "u1", "u2", "u4", "g1a", "g2a", "g1c"}
 
 
@@ -469,11 +476,22 @@ class GroupDriver(explore.Driver):
             s.using[g].discard(h)
             o = call(lambda: r.get_group(g, False).remove_groups(h))
             return [o[0], "present" if present else "absent"]
+        if k == "sys_add_groups":
+            s.sysg[ev[1]].add(ev[2])
+            return call(lambda: r.get_system(ev[1], False).add_groups(ev[2]))[:1]
         if k == "members_of":
             # reads ONE parent only: the groups it uses stay unread
             return call(lambda: sorted(r.get_group(ev[1], False).members if ev[1].startswith("G") else r.get_system(ev[1], False).members))[:1]
         if k == "members":
             return call(lambda: [sorted(r.get_group(g, False).members) for g in ("G1", "G2", "G3")] + [sorted(r.get_system(x, False).members) for x in ("S1", "S2")])[:1]
+        if k == "define" and "GX" in ev[1]:
+            already = "GX" in s.units
+            o = call(lambda: r.define(ev[1]))
+            if o[0] == "ok" and not already:
+                s.units["GX"] = {"gx1"}
+                s.using["GX"] = set()
+                s.all_units.add("gx1")
+            return o[:1]
         if k == "define":
             already = "g1c" in s.all_units
             o = call(lambda: r.define(ev[1]))
@@ -641,7 +659,7 @@ MANIFEST = {
     "text": "Every multiplicative canonical unit x 8 system settings: get_base_units(system=), to_base_units and ito_base_units under default_system must use only the system's declared base units plus the root units "
     "it does not replace, preserve dimensionality and exact physical value (Fraction registry), be idempotent and leave the operand alone; all 2-factor compounds over 10 units; 7 generated systems covering every rule form (bare rule naming a power of a root unit with exponent 2, 3, -1; 'new : old' with a compound new unit; two rules at once) x 8 units and all their 2-factor compounds, by name and as default system; every ordered triple of "
     "default-system changes is effective on the next query even after queries that named the other systems; get_compatible_units(u, G) for every unit x every group and system equals members(G) of the same dimension; sys.<S>.<name> resolves the system variant. "
-    "Histories: all sequences up to depth 3 (4) over 25 events (default-system settings, base-unit queries under the default and under a named system, add/remove units and groups including a self-cycle, a cycle of length 2 and one of length 3, membership queries, defining a "
+    "Histories: all sequences up to depth 3 (4) over 27 events (default-system settings, base-unit queries under the default and under a named system, add/remove units and groups including a self-cycle, a cycle of length 2 and one of length 3, membership queries, defining a "
     "unit into a group) on a generated 3-group / 2-system registry; in every state the members of all groups and systems, restricted listings and base-unit answers are compared with a reference closure model "
     "and a fresh registry; cyclic attempts must raise and change nothing; every step is run under a 3 s alarm so that a non-terminating closure is reported, not waited for.",
     "note": "Trusted: R1/R6 (system rule inversion is NOT re-derived: only allowed units, value preservation and idempotence are asserted, which pins the factor). Compounds with more than 2 factors, generated "
